@@ -29,8 +29,8 @@ RULE = (
 )
 ASSUMPTIONS = ["the scalar call on one column is the comparison term (its own correctness: C01, C05-C07)"]
 
-CFG_Q = G.QUICK.with_(p_cond=0.2, p_b2n=0.08, p_ccond=0.04, p_call=0.2, funcs=X.FUNCS1 + ("Mod", "floor", "abs", "abs"), own_state_bias=0.5, max_depth=4)
-CFG_T = G.THOROUGH.with_(p_cond=0.2, p_b2n=0.08, p_ccond=0.04, p_call=0.2, funcs=X.FUNCS1 + ("Mod", "floor", "abs", "abs"), own_state_bias=0.5)
+CFG_Q = G.QUICK.with_(wide_plant=0.4, p_cond=0.2, p_b2n=0.08, p_ccond=0.04, p_call=0.2, funcs=X.FUNCS1 + ("Mod", "floor", "abs", "abs"), own_state_bias=0.5, max_depth=4)
+CFG_T = G.THOROUGH.with_(wide_plant=0.4, p_cond=0.2, p_b2n=0.08, p_ccond=0.04, p_call=0.2, funcs=X.FUNCS1 + ("Mod", "floor", "abs", "abs"), own_state_bias=0.5)
 
 
 def strategy(tier):
